@@ -265,6 +265,11 @@ type DNSFilter struct {
 
 	engineLock sync.RWMutex
 
+	// initFilteringMu serializes the re-initializations of the filtering
+	// engines, so that a slower one that has opened the rule-list files earlier
+	// cannot replace the engines built from newer files.
+	initFilteringMu sync.Mutex
+
 	// confMu protects conf.
 	confMu *sync.RWMutex
 
@@ -795,6 +800,9 @@ func newRuleStorage(filters []Filter) (rs *filterlist.RuleStorage, err error) {
 
 // Initialize urlfilter objects.
 func (d *DNSFilter) initFiltering(allowFilters, blockFilters []Filter) (err error) {
+	d.initFilteringMu.Lock()
+	defer d.initFilteringMu.Unlock()
+
 	rulesStorage, err := newRuleStorage(blockFilters)
 	if err != nil {
 		return err
